@@ -40,15 +40,15 @@ BOUNDS = {
     'tree.physical': 'same sequences (length 2) on PhysicalFS over a fresh temporary directory, plus: nothing next to the root directory changes',
     'composite.physical': 'sequences of 2 operations incl. create_dir_all / remove_dir_all on PhysicalFS',
     'union.overlay': 'OverlayFS over three layers with pre-populated lower layers (shadowed file, split directory, a nested directory that exists only in the bottom layer, a 20000-byte file with a multi-byte name in the bottom layer) compared with ONE plain tree initialised to the union (three start configurations: plain, /f also in the upper layer, /f already removed through the overlay), all sequences of 2 (deep: 3) operations outside the input classes of the known findings',
-    'overlay': 'all sequences of 1 (deep: 2) overlay operations (15 kinds incl. move_file / copy_file x 5 paths) over 2 and 3 layers with pre-populated lower layers and a pre-populated upper layer (an entry and a marker for the same path, a stale marker), in three layouts (a filesystem per layer; all layers sibling directories of one filesystem; an upper layer whose directory is created only after construction): lower layers unchanged, observers change nothing, bookkeeping hidden',
+    'overlay': 'all sequences of 1 (deep: 2) overlay operations (15 kinds incl. move_file / copy_file x 5 paths) over 2 and 3 layers with pre-populated lower layers and a pre-populated upper layer (an entry and a marker for the same path, a stale marker, stray non-marker content of the bookkeeping folder: a 2-byte file name, a directory), in three layouts (a filesystem per layer; all layers sibling directories of one filesystem; an upper layer whose directory is created only after construction): lower layers unchanged, observers change nothing, bookkeeping hidden',
     'copydir': 'copy_dir / move_dir of 3 source trees x 3 source directory names (ASCII, multi-byte, below a multi-byte parent) (incl. names repeating the source directory name, empty and nested directories, binary and dot files) x same/other filesystem x existing destination: structure, bytes and returned count; plus a PhysicalFS source (native move_dir) to the same instance, another PhysicalFS instance and a MemoryFS: nothing may be written into the source filesystem at the destination path',
     'faults': '12 scenarios (incl. re-creating a removed file / directory through an overlay with a faulty upper layer) (create_dir_all, remove_dir_all, copy/move_file, copy/move_dir, walk_dir, read_to_string, altroot, overlay with faulty upper / faulty lower layer) x every position k of a failing underlying call: never Ok with a partial or wrong effect, never a panic, lower layers untouched',
     'embedded': 'EmbeddedFS over the fixture folder replay/embed (nested, dotted, multi-byte, prefix-sharing names, an empty file) against PhysicalFS on the same folder: for every embedded file and implied directory, the root, and for each an extension, a prefix, a sibling and a path below it (65 paths): existence, type, length, bytes, listings, walk; every mutating call is refused as not-supported; nothing changes',
     'times': 'set_creation/modification/access_time: 3 fields x 3 fields (ordered pairs) x 7 instants (epoch, sub-second, before the epoch, far future) on a file, a directory and the root, on memory, altroot, overlay (upper-layer entries; also with layers that are sub-directories of their filesystems: nothing outside the layer changes), physical and altroot over physical; plus append sessions (creation time kept, also when set while the handle is open)',
-    'walk.vanish': 'entries removed while a walk is under way (2 and 4 files; memory, altroot, overlay): one not-found error item per vanished entry, naming it, then the end',
+    'walk.vanish': 'entries removed while a walk is under way (2 and 4 files; memory, altroot, overlay): one not-found error item per vanished entry, naming it, then the end; plus an altroot whose base directory is removed / replaced by a file underneath it: exists, is_dir, is_file, metadata, read_dir, walk_dir of its root agree',
     'adiff:handles': '5 scenarios of write handles that overlap (idle handle dropped last, repeated flush after a foreign write, two append handles) or outlive their file (idle / with data) on memory, altroot, overlay: the async tree and bytes end up like the sync ones',
     'adiff:transfer': 'copy_file / move_file from a memory / altroot / physical source to another in-memory filesystem, with and without an existing destination; copy_dir / move_dir into a destination filesystem that refuses one file (fails part-way at 2 positions, or not at all): outcome class and both trees afterwards: async against sync',
-    'handles': '8 scenarios of read / write handles that outlive their file (removed, ancestor removed, re-created) or overlap with a second write handle on the same file (each flush and the drop publish exactly the own buffer) on memory, altroot, overlay: no panic, filesystem usable afterwards',
+    'handles': '9 scenarios of read / write handles that outlive their file (removed, ancestor removed, re-created, replaced by a directory) or overlap with a second write handle on the same file (each flush and the drop publish exactly the own buffer) on memory, altroot, overlay: no panic, filesystem usable afterwards',
     'hostile.physical': '14 operations on every entry of a directory holding a dangling symlink, symlinks to a directory and to a file and a non-UTF-8 name: no panic; metadata type agrees with listability; create_dir on an occupied name (also a dangling symlink) is classified as file-exists / directory-exists',
     'adiff:steps.memory': 'differential, sync MemoryFS vs AsyncMemoryFS: all sequences of 2 (deep: 3) operations (11 kinds incl. move/copy file, copy/move dir x 8 paths) from the empty and from a populated tree; after every step the result class and every observation (exists, metadata type/len, is_file/is_dir, listing, bytes, text, walk) of every path must agree',
     'adiff:steps.altroot': 'same (length 2), AltrootFS vs AsyncAltrootFS over in-memory filesystems',
